@@ -17,9 +17,7 @@ from ..effects import Effects, container_evident, _mutable_ctor
 from ..dataflow import chain, call_name
 from ..util import qual
 
-PACKAGES = ("rig.place_and_route", "rig.routing_table", "rig.netlist",
-            "rig.bitfield", "rig.utils.contexts", "rig.geometry",
-            "rig.links", "rig.machine_control.struct_file")
+PACKAGES = ("rig",)     # the whole package (scripts and wizard included)
 
 # (module:qualname, param) -> reason.  One symbol wide, each read and
 # confirmed against the source's own documentation.
@@ -34,6 +32,15 @@ ALLOW_MUTATE = {
     ("rig.place_and_route.place.hilbert:hilbert", "s"):
         "recursion state object threaded through the generator's own "
         "recursive calls (HilbertState), created fresh when omitted",
+    ("rig.machine_control.scp_connection:SCPConnection.read.callback",
+     "mem"): "the callback's purpose: store the reply into the result slice "
+             "it was bound to (a memoryview of this call's own buffer)",
+    ("rig.utils.docstrings:add_int_enums_to_docstring", "enum"):
+        "class decorator: extends the decorated enum's __doc__ at "
+        "definition time",
+    ("rig.utils.docstrings:add_signature_to_docstring.decorate",
+     "f_wrapper"): "function decorator: sets the wrapper's __doc__ at "
+                   "definition time",
 }
 ALLOW_GLOBAL = {
     ("rig.place_and_route.route.ner", "_concentric_hexagons"):
@@ -88,7 +95,7 @@ def check(program, rep):
     eff = Effects(program)
     mods = sorted(m for m in program.modules
                   if any(m == p or m.startswith(p + ".") for p in PACKAGES))
-    if len(mods) < 30:
+    if len(mods) < 55:
         raise AnalysisError("anchored packages shrank to %d modules" %
                             len(mods))
     n_fn = 0
@@ -248,9 +255,9 @@ def check(program, rep):
         if key not in used_allow:
             raise AnalysisError("allow-list entry %s no longer matches "
                                 "anything (anchor vanished)" % (key,))
-    rep.floor("C17-R1", 150)
+    rep.floor("C17-R1", 400)
     rep.floor("C17-R2", 1)
-    rep.floor("C17-R3", 12)
+    rep.floor("C17-R3", 20)
     rep.floor("C17-R4", 5)
     rep.floor("C17-R5", 5)
     return finish(rep, program, EXPLANATION, NOT_DECIDED,
